@@ -1287,6 +1287,15 @@ lyd_diff_apply_r(struct lyd_node **first_node, struct lyd_node *parent_node, con
             return ret;
         }
 
+        if ((op == LYD_DIFF_OP_REPLACE) && (match->schema->nodetype == LYS_LEAFLIST)) {
+            /* the move may come with a default flag change */
+            if (diff_node->flags & LYD_DEFAULT) {
+                match->flags |= LYD_DEFAULT;
+            } else {
+                match->flags &= ~LYD_DEFAULT;
+            }
+        }
+
         goto next_iter_r;
     }
 
